@@ -8,4 +8,4 @@ Extraction "model.ml" extraction_prelude
   select retain retain_sb cases parents leaf_cases
   resolve resolve_sb overwrite o_default set_field get to_collection set_counter thread_counts thread_counts_sb
   set_threads strictly_increasing mem_N into_threads_usize into_threads_bool runner_level spec_runner spec_effective
-  observe should_ignore effective_ignore first_some precedence norm_threads effective_skip_ext bytes_format_level.
+  observe should_ignore effective_ignore first_some precedence norm_threads effective_skip_ext bytes_format_level decimal_nanos parse_seconds_sb time_limits.
